@@ -109,6 +109,7 @@ func c10EvalAuth(c *Ctx, cs Case) {
 	}
 	model, spec := ans[len("model="):mi], ans[mi+len(" spec="):]
 	c.Trace()
+	c.GenTie(cs, "ReadEFIVariableAuthencation2 / Marshal", model, "gen.auth.read", hx(b))
 	if model != goObs {
 		c.Fail(Failure{Kind: "tie", What: "ReadEFIVariableAuthencation2: model and implementation disagree", Case: cs, Model: clip(model), Go: clip(goObs)})
 	}
@@ -173,6 +174,8 @@ func c10EvalWinCert(c *Ctx, cs Case) {
 	c.Trace()
 	if m := c.Drv.Ask("wincert.read", hx(b)); m != goObs {
 		c.Fail(Failure{Kind: "tie", What: "ReadWinCertificate: model and implementation disagree", Case: cs, Model: clip(m), Go: clip(goObs)})
+	} else {
+		c.GenTie(cs, "ReadWinCertificate / WriteWinCertificate", m, "gen.wincert.read", hx(b))
 	}
 	if panicked {
 		c.Fail(Failure{Kind: "property", What: "decoder panicked: " + pmsg, Case: cs, Go: goObs})
